@@ -118,7 +118,7 @@ class LocalInference:
                     if self.log: print('Increasing damping and continuing', getattr(model, 'damping', None))
                     alpha *= 0.5
                     if _vt.ON and _vt.sink is not None:
-                        _vt.emit('lmd.damp', t=t, damping=float(model.damping), alpha=float(alpha))
+                        _vt.emit('lmd.damp', t=t, damping=float(getattr(model, 'damping', 0.0)), alpha=float(alpha))
             prev_l = l
 
         # run some extra iterations with no gradient update to make sure things are primal feasible
